@@ -395,7 +395,7 @@ where
             let items: Vec<String> = h.0.iter().map(|(w, x)| format!("{}={:x}", w, x)).collect();
             format!("ok h:{}", if items.is_empty() { "-".to_string() } else { items.join(".") })
         }
-        "fmt" => {
+        "fmt" | "fmtL" => {
             let s = match a[1] {
                 "b" => format!("{:b}", v),
                 "o" => format!("{:o}", v),
